@@ -238,7 +238,7 @@ def run_case(case):
                     if r["target"] in p and r["target"] not in x:
                         p[r["target"]] = v
                         continue
-                    if abs(x[r["target"]] - v) > 1e-12 * max(abs(v), 1.0):
+                    if math.isfinite(v) and not (abs(x[r["target"]] - v) <= 1e-12 * max(abs(v), 1.0)):
                         bad("rule-not-satisfied", mode, "row %d (t=%g): rule for %s gives %r on this row but the row holds %r" % (i, tp[i], r["target"], v, x[r["target"]]))
                         okrow = False
                         break
